@@ -320,6 +320,8 @@ func (e *env) phase() int {
 // accepted, new block(s) announced, the re-announcement held by the peers.
 func (e *env) setupRebroadAns() (reached bool) {
 	rp, rs := e.p.Rej, e.rej
+	tx := e.makeTx()
+	rs.mu.Lock()
 	for i, sp := range e.peers {
 		rx := Reaction{Kind: RxSilent}
 		if i < len(rp.Reactions) {
@@ -327,8 +329,6 @@ func (e *env) setupRebroadAns() (reached bool) {
 		}
 		rs.react[sp.Addr] = rx
 	}
-	tx := e.makeTx()
-	rs.mu.Lock()
 	rs.tx = tx.TxHash()
 	rs.mu.Unlock()
 	first := e.callSendTx(tx)
